@@ -42,6 +42,8 @@ Bind(t, i) ==
     /\ fly'   = FlyOf(r.st)
     /\ stale' = StaleOf(r.st)
     /\ hand'  = [a \in Alg |-> { x \in Tg : fly'[<<a, x>>] - stale'[<<a, x>>] > 0 }]
+    /\ held'  = [a \in Alg |-> ToSet(r.st.held[a])]
+    /\ faults' = IF r.ev = "TickFault" THEN faults + 1 ELSE faults
     /\ nrec'  = nrec + Len(r.obs.chron)
     /\ runs'  = IF r.ev = "Run" THEN runs + 1 ELSE runs
     /\ reloads' = IF r.ev = "Reload" THEN reloads + 1 ELSE reloads
@@ -62,7 +64,7 @@ StepClauses(p, r) ==
         units == Alg \X Tg
     IN
     \* ---- C01
-    FailClause("C01.Release", \A a \in Alg, s \in Tg : Released(a, s) => ~Blocked(a, s))
+    FailClause("C01.Release", \A a \in Alg, s \in Tg : ((Released(a, s) /\ s \notin held[a]) \/ Decided(a, s)) => ~Blocked(a, s))
     \cup
     \* ---- C03
     FailClause("C03.OneAtATime", \A u \in units : fly'[u] - stale'[u] <= 1)
@@ -79,12 +81,14 @@ StepClauses(p, r) ==
     \cup
     FailClause("C03.StaysQueued",
                \* every task message created in this step was either written to exactly one worker or is still queued
-               r.ev = "Tick" =>
+               r.ev \in {"Tick", "TickFault"} =>
                  \A u \in units :
                     Count(r.st.cluster, LAMBDA m : m.alg = u[1] /\ m.t = u[2])
                       + Count(r.obs.written, LAMBDA m : m.alg = u[1] /\ m.t = u[2])
                     = Count(r.obs.put, LAMBDA m : m.alg = u[1] /\ m.t = u[2])
                       + Count(p.st.cluster, LAMBDA m : m.alg = u[1] /\ m.t = u[2]))
+    \cup
+    FailClause("C03.ReleasedWasPending", \A a \in Alg, s \in Tg : Released(a, s) => s \in todo[a] \cup held[a])
     \cup
     FailClause("C03.CrewView", \A u \in units : BusyOfSt(r.st)[u] = PlacedOf(r.st)[u])
     \cup
@@ -110,8 +114,12 @@ StepClauses(p, r) ==
                   /\ Len(r.st.busy) = 0 /\ r.st.crew_busy = 0)
     \cup
     FailClause("C04.Progress",
-               (r.ev = "Tick" /\ r.st.active /\ ~r.st.paused) =>
-                  \A a \in Alg, s \in Tg : Eligible(a, s) => Released(a, s))
+               (r.ev \in {"Tick", "TickFault"} /\ r.st.active /\ ~r.st.paused) =>
+                  \A a \in Alg, s \in Tg : Eligible(a, s) => (Released(a, s) \/ (r.ev = "TickFault" /\ s \in held'[a])))
+    \cup
+    FailClause("C04.HeldFlushed",
+               \* a dispatch pass that does not raise serves everything left over from one that did
+               (r.ev = "Tick" /\ r.st.active /\ ~r.st.paused) => \A a \in Alg : held'[a] = {})
     \cup
     \* ---- C05
     FailClause("C05.Withdrawn",
@@ -138,7 +146,8 @@ StepClauses(p, r) ==
 (* is the recorded step a step of the implementation-shaped model? *)
 ModelStep(r) ==
     CASE r.ev = "Run"   -> Run(ToSet(r.args.S), ToSet(r.args.T)) \/ UNCHANGED <<todo, doing, que, fly>>
-      [] r.ev = "Tick"  -> Tick \/ (UNCHANGED <<todo, doing, que, fly>> /\ \A a \in Alg : Release[a] = {})
+      [] r.ev = "Tick"  -> Tick \/ (UNCHANGED <<todo, doing, que, fly, held>> /\ Cands = {})
+      [] r.ev = "TickFault" -> (\E P \in SUBSET Cands : TickPut(P)) \/ (UNCHANGED <<todo, doing, que, fly, held>> /\ Cands = {})
       [] r.ev = "Reply" -> Reply(r.args.alg, r.args.t, r.args.out, ToSet(r.args.new), r.obs.reply[1].stale)
       [] r.ev = "Reload" -> Reload(ToSet(r.args.S))
       [] OTHER -> TRUE
@@ -151,6 +160,7 @@ TraceInit ==
     /\ todo = [a \in Alg |-> ToSet(Rec(tid, 1).st.todo[a])]
     /\ doing = [a \in Alg |-> ToSet(Rec(tid, 1).st.doing[a])]
     /\ hand = [a \in Alg |-> {}]
+    /\ held = [a \in Alg |-> {}] /\ faults = 0
     /\ que = ToSet(Rec(tid, 1).st.que)
     /\ fly = FlyOf(Rec(tid, 1).st) /\ stale = StaleOf(Rec(tid, 1).st)
     /\ nrec = 0 /\ ndrop = 0 /\ runs = 0 /\ reloads = 0
